@@ -743,7 +743,7 @@ class NumericalMultiplicationOperator(BinaryOperator):
                 cur_el1 = self.element_1
                 for i in self.index:
                     cur_el1 = cur_el1[i]
-                return "({}) * ({})".format(str(self.element_2), cur_el1.term(time))
+                return "({}) * ({})".format(self.element_2.term(time), cur_el1.term(time))
 
             elif isinstance(self.element_2, BPTK_Py.sddsl.element.Element) and self.element_2._elements.vector_size():
                 # number * array (Element.__rmul__): the array is the second operand
@@ -753,9 +753,9 @@ class NumericalMultiplicationOperator(BinaryOperator):
                 return "({}) * ({})".format(cur_el2.term(time), self.element_1.term(time))
 
             else:
-                return "(" + str(self.element_2) + ") * (" + self.element_1.term(time) + ")"
+                return "(" + self.element_2.term(time) + ") * (" + self.element_1.term(time) + ")"
         else:
-            return "(" + str(self.element_2) + ") * (" + self.element_1.term(time) + ")"
+            return "(" + self.element_2.term(time) + ") * (" + self.element_1.term(time) + ")"
 
     def resolve_dimensions(self):
         dim1 = _get_element_dimensions(self.element_1)
